@@ -14,7 +14,7 @@ RunOK(x) ==
   IF RunRejects(p) THEN x.code = 1 /\ x.nsent = 0 /\ x.outlen = 0          \* refused with an error, nothing ran
   ELSE
     /\ x.code # 1 /\ (Ends(p) => x.code = 0) /\ (~Ends(p) => x.code = -1)  \* -1: had to be stopped
-    /\ (x.nsent > 0 => IF p.data THEN x.alleq ELSE x.allempty)             \* exactly the bytes given
+    /\ (x.nsent > 0 => IF p.data /\ ~x.dataempty THEN x.alleq ELSE x.allempty)   \* exactly the bytes given (an empty payload: empty messages)
     /\ CASE Mode(p) \in {"send", "sendrecv"} ->
               IF Sends(p) >= 0 THEN x.nsent = Sends(p) ELSE x.nsent >= x.killat   \* the number of times requested
          [] Mode(p) = "reply" -> x.nsent = x.nreq                           \* one answer per request
